@@ -19,6 +19,18 @@ From BB Require Import BN Brute SpaceFacts TrapFacts PercolateFacts AttractorFac
   Strict PetriNet Control Meta FilterFacts PetriNetFacts TrappistFacts DiagramStruct DiagramSem1 DiagramCache
   DiagramDepth DiagramComplete Termination ControlFacts MetaFacts Candidates StrictFacts MinExpandFacts CandidatesFacts SymbolicTest SymbolicTestFacts Signed ReductionFacts ControlFacts2 Main Blocks BlocksFacts ObsFacts OwnerFacts CandidatesTerm
   PartialOwner BlockMath BlockComplete ASeeds ASeedsFacts LogChecks SkipRule SkipRuleFacts Names NamesFacts Perm PermFacts SCC SCCFacts SCCStruct ControlFacts3 SCCTerm FilterSym Main2 StrategyFacts ControlFacts4 SkipRuleFacts2 SCCComplete SCCAttr BlockComplete2 ControlFacts5 Iso SkipSem ControlFacts6.
+From BB Require Import PyLibCore PySrcCore PySrcCoreFacts PyLibCore2 PySrcCore2 PySrcCore2Facts PyLib PyLibSd PyLibCore PyLibSd2 PySrcSdBase PySrcSdMin PySrcSdMinFacts.
+
+(* translator tie: the functions GENERATED from the current text of SuccessionDiagram.skip_to_minimal / skip_remaining (PySrcCore2.v) compute the model's skip_to_minimal_t / skip_remaining under the class invariant and the tape contract *)
+Theorem C05_source_skip_to_minimal : forall (fuel : nat) (N : net) (cfg : config) (pnc : nat -> bool) (w : pyst) (i : nat) (tape : list space), CoreInv N w -> i < size (p_sd w) -> perm_of tape (min_traps_b N (n_space (get (p_sd w) i))) = true -> S (size (fst (skip_to_minimal_t N (p_sd w) i tape))) < fuel -> exists (w' : pyst) (b : bool), py_skip_to_minimal fuel N cfg pnc w tape i = CRet w' b /\ p_sd w' = fst (skip_to_minimal_t N (p_sd w) i tape) /\ snd (skip_to_minimal_t N (p_sd w) i tape) = RBool b /\ CoreInv N w'.
+Proof. exact py_skip_to_minimal_spec. Qed.
+
+Theorem C05_source_skip_remaining : forall (fuel : nat) (N : net) (cfg : config) (pnc : nat -> bool) (w : pyst) (tape : list space), CoreInv N w -> n_space (get (p_sd w) 0) = percolate_b N (top_space (nvars N)) -> perm_of tape (min_traps_b N (n_space (get (p_sd w) 0))) = true -> S (size (fst (skip_remaining N (p_sd w) tape))) < fuel -> exists (w' : pyst) (k : nat), py_skip_remaining fuel N cfg pnc w tape = CRet w' k /\ p_sd w' = fst (skip_remaining N (p_sd w) tape) /\ snd (skip_remaining N (p_sd w) tape) = RNat k /\ CoreInv N w'.
+Proof. exact py_skip_remaining_spec. Qed.
+
+(* ... and expand_minimal_spaces (skip_ignored) the model's expand_min *)
+Theorem C05_source_expand_minimal_spaces : forall (fuel : nat) (N : net) (cfg : config) (d : sd) (start size_limit : option nat) (skip : bool) (tape : list space), SWF N d -> TrapNodes N d -> EdgeStrict d -> start_of start < size d -> perm_of tape (min_traps_b N (n_space (get d (start_of start)))) = true -> py_expand_minimal_spaces fuel N cfg d tape start size_limit skip = expand_min fuel N cfg d start size_limit skip tape.
+Proof. exact py_expand_minimal_spaces_spec. Qed.
 
 Theorem C05_skip_ops_keep_wellformed : forall (fuel : nat) (N : net) (cfg : config) (d : sd) (o : op), SWF N d -> SWF N (fst (step fuel N cfg d o)).
 Proof. exact step_SWF. Qed.
@@ -76,6 +88,9 @@ Proof. exact step_AnyInv. Qed.
 Theorem C05_expanded_node_keeps_minimal_traps : forall (N : net) (d : sd) (i : nat) (M : space), AnyInv N d -> i < size d -> n_exp (get d i) = true -> min_trap N M -> subspace M (n_space (get d i)) = true -> n_space (get d i) = M \/ (exists c : nat, In c (successors d i) /\ subspace M (n_space (get d c)) = true).
 Proof. exact expanded_min_descends. Qed.
 
+Print Assumptions C05_source_skip_to_minimal.
+Print Assumptions C05_source_skip_remaining.
+Print Assumptions C05_source_expand_minimal_spaces.
 Print Assumptions C05_skip_ops_keep_wellformed.
 Print Assumptions C05_skip_ops_keep_faithful.
 Print Assumptions C05_skip_ops_clear_caches.
